@@ -79,9 +79,13 @@ type genCfg struct {
 	api              bool
 	stateFile        bool
 	isolate          bool
+	manyAdvertised   bool
 }
 
 func (g genCfg) String() string {
+	if len(g.universe) > 40 {
+		g.universe = fmt.Sprintf("%s...(%d bytes)", g.universe[:12], len(g.universe))
+	}
 	return fmt.Sprintf("universe=%q secret=%v lite=%v stub=%v services=%d friends=%d api=%v statefile=%v isolate=%v",
 		g.universe, g.secret != "", g.lite, g.stub, g.nServices, g.nFriends, g.api, g.stateFile, g.isolate)
 }
@@ -98,6 +102,13 @@ func genConfig(r *rand.Rand) genCfg {
 	g.lite = r.IntN(4) == 0
 	g.stub = r.IntN(4) == 0
 	g.nServices = r.IntN(5)
+	switch r.IntN(8) {
+	case 0:
+		g.universe = "big-" + strings.Repeat("u", 1300+r.IntN(600)) // a long universe name: handshake frames beyond the small buffers
+	case 1:
+		g.nServices = 25 + r.IntN(10) // many advertised services: announcements beyond the small buffers
+		g.manyAdvertised = true
+	}
 	g.nFriends = r.IntN(4)
 	g.api = r.IntN(2) == 0
 	g.stateFile = r.IntN(2) == 0
@@ -153,7 +164,7 @@ func buildStore(r *rand.Rand, g genCfg, id *m.Address, listenPort, apiPort int, 
 			}
 			usedICMP = true
 		}
-		svc := config.ServiceConfig{Name: fmt.Sprintf("svc%d", i), URL: url, Advertise: r.IntN(2) == 0}
+		svc := config.ServiceConfig{Name: fmt.Sprintf("svc%d", i), URL: url, Advertise: r.IntN(2) == 0 || g.manyAdvertised}
 		switch r.IntN(3) {
 		case 0:
 			svc.Public = true
@@ -211,6 +222,9 @@ func childRun(args []string) int {
 	}
 	r := rand.New(rand.NewPCG(seed, uint64(idx)))
 	g := genConfig(r)
+	if mode == "lonely-first" {
+		g.stateFile = true // the first cycle leaves a state file of a router that met nobody
+	}
 	res := &childResult{ConfigDesc: g.String(), ConfigHash: core.Hash(g.String())}
 	fail := func(sig, format string, a ...any) {
 		res.Violations = append(res.Violations, fmt.Sprintf(format, a...))
@@ -261,6 +275,28 @@ func childRun(args []string) int {
 				return nil
 			}
 			return in
+		}
+		if mode == "lonely-first" && cycle == 0 {
+			// both routers run once without meeting anybody, then stop (their state files hold no router yet)
+			for _, name := range []string{"A", "B"} {
+				st := stA
+				if name == "B" {
+					st = stB // B dials A, which is down again by then
+				}
+				in := start(name, st)
+				if in == nil {
+					return emit()
+				}
+				time.Sleep(100 * time.Millisecond)
+				if ok := in.Stop(); !ok {
+					fail("stop-returned-false", "router %s: Stop() of a router that met no peer returned false", name)
+				}
+			}
+			res.Cycles++
+			if len(res.Violations) > 0 {
+				break
+			}
+			continue
 		}
 		instA = start("A", stA)
 		if instA == nil {
@@ -534,7 +570,10 @@ func run(c *core.Ctx) {
 			dir := filepath.Join(c.WorkDir, fmt.Sprintf("c%d", i))
 			ctx, cancel := context.WithTimeout(context.Background(), 8*time.Minute)
 			defer cancel()
-			mode := []string{"normal", "flood-stop", "stop-with-inflight-frame", "immediate", "single-cpu"}[i%5]
+			mode := []string{"normal", "flood-stop", "stop-with-inflight-frame", "immediate", "single-cpu", "lonely-first"}[i%6]
+			if mode == "lonely-first" && cycles < 2 {
+				cycles = 2
+			}
 			cmd := exec.CommandContext(ctx, exe, "child", "c20run", strconv.FormatUint(seed, 10), strconv.Itoa(i), strconv.Itoa(cycles), dir, mode)
 			if mode == "single-cpu" {
 				// one usable CPU (a 1-vCPU VM, a cpuset): runtime.NumCPU() is 1 in the child
